@@ -141,7 +141,8 @@ def stringfOK (code : Nat) (preCT format : Bytes) (args : List Arg) (sprintf : B
 def plainOK (kind code : Nat) (ct text : Bytes) (status : Nat) (ctype body : Bytes) : Bool :=
   status == code && body == text &&
   ctype == (if kind == 0 then bstr "text/plain" else if kind == 1 then bstr "text/html"
-            else if ct == [] then bstr "application/octet-stream" else ct)
+            else if kind == 2 then (if ct == [] then bstr "application/octet-stream" else ct)
+            else [])   -- SendStatus (3): `text` is the standard status text; NoContent (4): code 204, no body
 
 /-- documented response of `Format` for one representation: JSON as `JSON` sends it, `<p>…</p>` as
     text/html, the one-element XML document as application/xml, the plain `%v` text as text/plain -/
